@@ -48,8 +48,40 @@ def scc_like(rng):
     return abs(t)
 
 
+SCC_POOL = []
+
+
+def fill_scc_pool(rng, docs=12, caps=40):
+    """times that the real SCCReader produces (floats): pop-on captions at random frame numbers, drop and non-drop"""
+    from pycaption import SCCReader
+    del SCC_POOL[:]
+
+    def tc(f, drop):
+        sec = f // 30
+        return "%02d:%02d:%02d%s%02d" % (sec // 3600, sec // 60 % 60, sec % 60, ";" if drop else ":", f % 30)
+    for d in range(docs):
+        drop = d % 2 == 1
+        f = rng.randrange(0, 30 * 3600 * rng.choice([1, 1, 5, 20]))
+        lines = ["Scenarist_SCC V1.0", ""]
+        for _ in range(caps):
+            a = f + rng.randrange(20, 200)
+            b = a + rng.randrange(40, 300)
+            lines += ["%s\t9420 9420 9470 9470 c8e5 ecec ef80 942f 942f" % tc(a, drop), "",
+                      "%s\t942c 942c" % tc(b, drop), ""]
+            f = b + rng.randrange(20, 2000)
+        r = impl.call(lambda: SCCReader().read("\n".join(lines)))
+        if isinstance(r, Ok):
+            for lang in r.v.get_languages():
+                for c in r.v.get_captions(lang):
+                    for t in (c.start, c.end):
+                        if isinstance(t, (int, float)) and 0 <= t < 86399999999:
+                            SCC_POOL.append(int(t) if isinstance(t, float) and t.is_integer() else t)
+
+
 def gen_time(rng):
     k = rng.random()
+    if SCC_POOL and k < 0.15:
+        return rng.choice(SCC_POOL)
     if k < 0.35:
         t = rng.choice(GRID) + rng.choice([-1, 0, 0, 1])
     elif k < 0.55:
@@ -254,6 +286,9 @@ def run(ctx):
     res = {"evaluations": 0, "nontrivial": set(), "violations": [], "disagreements": [], "distribution": {},
            "streams": 8, "notes": [], "samples": []}
     dist = res["distribution"]
+    fill_scc_pool(rng)
+    dist["scc_reader_times_in_pool"] = len(SCC_POOL)
+    dist["scc_reader_times_non_integer"] = sum(1 for t in SCC_POOL if isinstance(t, float))
     n = ctx.n(450, 15000)
     cases = []
     for i in range(n):
@@ -370,8 +405,9 @@ def run(ctx):
     if ctx.thorough:
         sweep(ctx, res)
     res["rule"] = ("caption sets of 1-3 languages, 1-6 captions: times from the carry grid {0,1,999,1000,999999,10^6,"
-                   "59999999,60*10^6,3599999999,3600*10^6,86399999999,...}+-1, uniform integers below 24 h, floats computed "
-                   "like the SCC reader (frames/30[*1001/1000]*10^6), grid +- {1/4,1/3,1/2,3/4}; runs of 1-4 equal spans, "
+                   "59999999,60*10^6,3599999999,3600*10^6,86399999999,...}+-1, uniform integers below 24 h, float times read by the "
+                   "real SCCReader from generated pop-on streams (drop and non-drop), floats computed like the SCC reader "
+                   "(frames/30[*1001/1000]*10^6), grid +- {1/4,1/3,1/2,3/4}; runs of 1-4 equal spans, "
                    "near-miss spans sharing only start or end, touching cues, captions with two layouts (WebVTT split). "
                    "Non-trivial: distinct (writer, start, end) with start >= 1 min or a sub-millisecond part; SAMI lists "
                    "with >= 2 cues.")
